@@ -91,12 +91,14 @@ def compare_line(op, cpp, lean):
     impl, _, spec = lean.partition(' ## ')
     if main.startswith('EXC:') or 'WIDTH-DIFF' in main or main == 'BAD':
         out.append(('crash', main))
-    if main != impl:
+    if impl.startswith('hyp=0'):
+        out.append(('hypothesis', 'an instance of an IDNA hypothesis of the theorems (%s) is false for ICU ToASCII at this host: the theorems that assume it do not cover this input' % impl[6:]))
+    elif main != impl:
         if public_view(main) == public_view(impl) and re.sub(r' so=\d', '', SPPART.sub('', main)) != main:
             out.append(('hidden', 'C++ %s | model %s' % (HIDDEN.findall(main) + SPPART.findall(main), HIDDEN.findall(impl) + SPPART.findall(impl))))
         else:
             out.append(('impl', 'C++ %s | model %s' % (main, impl)))
-    if spec not in ('~', '') and public_view(main) != public_view(spec) and public_view(main) != spec:
+    if spec not in ('~', '') and not spec.startswith('live=') and public_view(main) != public_view(spec) and public_view(main) != spec:
         out.append(('spec', 'C++ %s | Standard %s' % (public_view(main), spec)))
     for m in re.finditer(r'(\w+)=0', preds):
         out.append(('pred:' + m.group(1), preds.strip()))
@@ -362,6 +364,13 @@ def main():
             res = compare_line(lines[i], cpp[i], lean[i])
             if lines[i] != 'case':
                 distinct.add(cpp[i].split(' @@')[0])
+            if lines[i].startswith('idnahyp '):
+                hl = cov.setdefault('idna_hypothesis_instances', {'hosts': 0, 'ascii': 0, 'persist': 0, 'out_ascii': 0, 'idem': 0, 'false': 0})
+                hl['hosts'] += 1
+                live = lean[i].partition('## live=')[2]
+                for ch, nm in (('a', 'ascii'), ('p', 'persist'), ('o', 'out_ascii'), ('i', 'idem')):
+                    if ch in live: hl[nm] += 1
+                if 'hyp=0' in lean[i]: hl['false'] += 1
             for (kind, detail) in res:
                 kf = known_class(lines[i], kind)
                 if kf:
@@ -379,7 +388,7 @@ def main():
             if s0 in first_hid and first_hid[s0][0] < i:
                 detail += '\nhidden state had diverged before, at: %s (%s)' % (readable(lines[first_hid[s0][0]]), first_hid[s0][2][:300])
             small = shrink(runner, ls, i - s, kind)
-            violations.append((kind, small, '%s\n%s' % (kind, detail[:3000]), True))
+            violations.append((kind, small, '%s\n%s' % (kind, detail[:3000]), kind != 'hypothesis'))
             seen_cases.add(s0)
         # pass 3: hidden state only (offsets / flags / segment count / params list / sorted flag), no public
         # divergence in that case: search for a public manifestation. Stale bookkeeping shows itself in a LATER
